@@ -1022,4 +1022,139 @@ theorem mul_int_zero_pos' (r : F64) {x y : Int} (hx : -maxInt ≤ x ∧ x ≤ ma
   simp only [this, if_true]
   decide
 
+
+theorem tmod_abs_lt (a : Int) {b : Int} (hb : b ≠ 0) : -b.natAbs < a.tmod b ∧ a.tmod b < b.natAbs := by
+  by_cases hpos : 0 < b
+  · have h1 := Int.tmod_lt_of_pos a hpos
+    have h2 := Int.lt_tmod_of_pos a hpos
+    omega
+  · have hneg : 0 < -b := by omega
+    have h1 := Int.tmod_lt_of_pos a hneg
+    have h2 := Int.lt_tmod_of_pos a hneg
+    rw [Int.tmod_neg] at h1 h2
+    omega
+
+/-- **`_mul`'s overflow test is exact** (vm.go `res := left * right; if … res/left == right`): for operands of
+magnitude ≤ 2^53 the wrapped int64 product divided by `left` gives back `right` exactly when the true product fits
+an int64 — so the integer path is taken iff it is exact, and never with a wrapped value. -/
+theorem mul_overflow_test {x y : Int} (hx : -maxInt ≤ x ∧ x ≤ maxInt) (hx0 : x ≠ 0) :
+    goQuot (wrapS 64 (x * y)) x = y ↔ InInt64 (x * y) := by
+  have hm : maxInt = 2 ^ 53 := rfl
+  rw [hm] at hx
+  constructor
+  · intro h
+    have hdiv := Int.mul_tdiv_add_tmod (wrapS 64 (x * y)) x
+    simp only [goQuot] at h
+    rw [h] at hdiv
+    obtain ⟨t1, t2⟩ := tmod_abs_lt (wrapS 64 (x * y)) hx0
+    have hxa : (x.natAbs : Int) ≤ 2 ^ 53 := by omega
+    generalize (wrapS 64 (x * y)).tmod x = t at *
+    -- wrapS 64 p = p + t, |t| < 2^53, and wrapS 64 p ≡ p (mod 2^64)  ⇒  t = 0
+    have hw : wrapS 64 (x * y) = (x * y + 2 ^ 63) % 2 ^ 64 - 2 ^ 63 := by simp [wrapS]
+    generalize x * y = p at *
+    simp only [InInt64, minInt64, maxInt64]
+    omega
+  · intro h
+    have hw : wrapS 64 (x * y) = x * y := by
+      simp only [wrapS, InInt64, minInt64, maxInt64] at *
+      generalize x * y = p at *
+      omega
+    rw [hw]; exact Int.mul_tdiv_cancel_left y hx0
+
+instance (i : Int) : Decidable (InInt64 i) := inferInstanceAs (Decidable (minInt64 ≤ i ∧ i ≤ maxInt64))
+
+/-- the int×int path of `*`, completely: for canonical ints the result is `-0` for a zero product with a negative
+factor, the canonical value of the EXACT product when it fits an int64, and `floatToValue r` (the IEEE product) only
+when the exact product does not fit — a wrapped product is never used. -/
+theorem opMul_int_exact {x y : Int} (hx : -maxInt ≤ x ∧ x ≤ maxInt) (hy : -maxInt ≤ y ∧ y ≤ maxInt) (r : F64) :
+    opMul (int x) (int y) r =
+      if (x = 0 ∧ y < 0) ∨ (x < 0 ∧ y = 0) then flt F64.negZero
+      else if InInt64 (x * y) then intToValue (x * y)
+      else floatToValue r := by
+  by_cases hz : (x = 0 ∧ y < 0) ∨ (x < 0 ∧ y = 0)
+  · simp [opMul, toNumeric, mulNegZero, hz]
+  · simp only [opMul, toNumeric, mulNegZero, hz, decide_false, Bool.false_eq_true, if_false]
+    by_cases hx0 : x = 0
+    · subst hx0
+      have h1 : InInt64 (0 * y) := by simp [InInt64, minInt64, maxInt64]
+      have h2 : wrapS 64 (0 * y) = 0 * y := by simp [wrapS]
+      simp only [h1, h2, true_or, if_true]
+    · by_cases hy0 : y = 0
+      · subst hy0
+        have h1 : InInt64 (x * 0) := by simp [InInt64, minInt64, maxInt64]
+        have h2 : wrapS 64 (x * 0) = x * 0 := by simp [wrapS]
+        simp only [h1, h2, true_or, or_true, if_true]
+      · have key := mul_overflow_test (y := y) hx hx0
+        by_cases hfit : InInt64 (x * y)
+        · have hq := key.2 hfit
+          have hw : wrapS 64 (x * y) = x * y := by
+            simp only [wrapS, InInt64, minInt64, maxInt64] at *
+            generalize x * y = p at *
+            omega
+          rw [hw] at hq ⊢
+          simp only [hx0, hy0, hq, false_or, or_true, if_true, hfit]
+        · have hq : ¬ goQuot (wrapS 64 (x * y)) x = y := fun h => hfit (key.1 h)
+          simp only [hx0, hy0, hq, false_or, if_false, hfit]
+
+
+
+/-- IEEE-754 division, special operands (§6.1, §6.3, §7.2, §7.3): NaN in → NaN; ∞/∞ and 0/0 invalid → NaN; ∞/y → ∞,
+x/∞ → 0, x/0 → ∞ (division by zero), each with the XOR of the signs; `none` = ordinary operands (finite / finite
+non-zero), where the result is the correctly rounded quotient `r` supplied as data -/
+def specDivSpecial (l rt : F64) : Option F64 :=
+  if l.isNaN || rt.isNaN then some F64.canonNaN
+  else if (l.isInf && rt.isInf) || (l.isZero && rt.isZero) then some F64.canonNaN
+  else if l.isInf || rt.isZero then some ⟨l.neg != rt.neg, 2047, 0, by decide, by decide⟩
+  else if rt.isInf then some ⟨l.neg != rt.neg, 0, 0, by decide, by decide⟩
+  else none
+
+theorem floatToValue_zero (neg : Bool) :
+    floatToValue ⟨neg, 0, 0, by decide, by decide⟩ = if neg then flt F64.negZero else int 0 := by
+  have hz : (⟨neg, 0, 0, by decide, by decide⟩ : F64).isZero = true := by simp [F64.isZero]
+  have hint : (⟨neg, 0, 0, by decide, by decide⟩ : F64).isIntegral = true := by simp [F64.isIntegral, F64.eff, F64.sig]
+  have hinf : (⟨neg, 0, 0, by decide, by decide⟩ : F64).isInf = false := by simp [F64.isInf]
+  have hnan : (⟨neg, 0, 0, by decide, by decide⟩ : F64).isNaN = false := by simp [F64.isNaN]
+  have ht : (⟨neg, 0, 0, by decide, by decide⟩ : F64).truncInt = 0 := by simp [F64.truncInt, truncNat_of_zero hz]
+  cases neg
+  · have : floatToInt ⟨false, 0, 0, by decide, by decide⟩ = some 0 := by
+      simp [floatToInt, hz, hinf, hnan, hint, ht, maxInt]
+    simp [floatToValue, this, intToValueSmall]
+  · have : floatToInt ⟨true, 0, 0, by decide, by decide⟩ = none := by
+      simp [floatToInt, hz]
+    simp [floatToValue, this, hz]
+
+/-- **`/` refines IEEE division**: goja's explicit special cases (vm.go `_div`) give exactly the canonical value of the
+IEEE result, and every other operand pair goes through `floatToValue r`. -/
+theorem opDiv_refines' (a b : Num) (r : F64) :
+    opDiv a b r = floatToValue ((specDivSpecial (toNumeric a).toF64 (toNumeric b).toF64).getD r) := by
+  simp only [opDiv, specDivSpecial]
+  generalize (toNumeric a).toF64 = l
+  generalize (toNumeric b).toF64 = rt
+  by_cases h1 : (l.isNaN || rt.isNaN) = true
+  · simp only [h1, if_true, Option.getD_some]; decide
+  · simp only [h1, Bool.false_eq_true, if_false]
+    by_cases h2 : (l.isInf && rt.isInf) = true
+    · simp only [h2, if_true, Bool.true_or, Option.getD_some]; decide
+    · by_cases h3 : (l.isZero && rt.isZero) = true
+      · simp only [h2, h3, Bool.false_eq_true, if_false, if_true, Bool.or_true, Option.getD_some]; decide
+      · simp only [h2, h3, Bool.false_eq_true, if_false, Bool.or_self]
+        by_cases h4 : l.isInf = true
+        · simp only [h4, if_true, Bool.true_or, Option.getD_some]
+          cases hl : l.neg <;> cases hr : rt.neg <;> decide
+        · simp only [h4, Bool.false_eq_true, if_false, Bool.false_or]
+          by_cases h5 : rt.isInf = true
+          · have h6 : rt.isZero = false := by
+              simp [F64.isInf, F64.isZero] at *; intro he; omega
+            simp only [h5, h6, if_true, Bool.false_eq_true, if_false, Option.getD_some, floatToValue_zero]
+            cases hl : l.neg <;> cases hr : rt.neg <;> simp
+          · simp only [h5, Bool.false_eq_true, if_false]
+            by_cases h6 : rt.isZero = true
+            · simp only [h6, if_true, Option.getD_some]
+              cases hl : l.neg <;> cases hr : rt.neg <;> decide
+            · simp only [h6, Bool.false_eq_true, if_false, Option.getD_none]
+
+
+theorem int_eq_floatToValue (i : Int) : intToValue i = floatToValue (F64.ofInt i) :=
+  floatToValue_unique' (canon_intToValue_canon i) (intToValue_denotes' i)
+
 end GojaModel.C05
